@@ -1,6 +1,7 @@
 -- helper definitions for C12: a universe of serializable types closed under the generic constructors, so that
 -- "every serializable value, nested compositions included" is one statement
 import WinterProofs.Lemmas.C12Proof
+import WinterProofs.Lemmas.C12Digest62
 
 namespace WinterProofs.C12L
 open Model Model.Serde
@@ -111,6 +112,7 @@ inductive Ty where
   | cube (f : Fld)                -- CubeExtension
   | byteDigest (n : Nat)          -- ByteDigest<N>
   | elemDigest64                  -- ElementDigest of Rp64_256 / RpJive64_256
+  | elemDigest62                  -- ElementDigest of Rp62_248 (248 bits)
   | fieldExtension
   | proofOptions
   | traceInfo
@@ -136,6 +138,7 @@ def Ty.val : Ty → Type
   | .cube _ => Nat × Nat × Nat
   | .byteDigest _ => Bytes
   | .elemDigest64 => List Nat
+  | .elemDigest62 => List Nat
   | .fieldExtension => Nat
   | .proofOptions => Serde.ProofOptions
   | .traceInfo => Serde.TraceInfo
@@ -161,6 +164,7 @@ def Ty.codec : (t : Ty) → Codec t.val
   | .cube f => Serde.cube f.impl
   | .byteDigest n => Serde.byteDigest n
   | .elemDigest64 => Serde.elemDigest64
+  | .elemDigest62 => Serde.elemDigest62
   | .fieldExtension => Serde.fext
   | .proofOptions => Serde.proofOptions
   | .traceInfo => Serde.traceInfo
@@ -186,6 +190,7 @@ theorem Ty.rt : ∀ t : Ty, t.codec.RT
   | .cube f => pair_RT (elem_RT f.impl f.fits) (pair_RT (elem_RT f.impl f.fits) (elem_RT f.impl f.fits))
   | .byteDigest n => byteDigest_RT n
   | .elemDigest64 => elemDigest64_RT
+  | .elemDigest62 => elemDigest62_RT
   | .fieldExtension => fext_RT
   | .proofOptions => proofOptions_RT
   | .traceInfo => traceInfo_RT
